@@ -3,7 +3,7 @@ import random
 from pathlib import Path
 
 from vlib import Check
-from checks.writer_common import writer_model, run_scenarios, writer_scenarios, exporter_scenarios
+from checks.writer_common import writer_model, run_scenarios, writer_scenarios, exporter_scenarios, boundary_scenarios
 
 
 def run(tier):
@@ -12,7 +12,8 @@ def run(tier):
                 "named/descriptor x compressed/plain; traces: chunk sequences (1 B .. 32 MiB; zero / text / random; empty) with "
                 "rotation points through the real gzip/xz/plain writers and end-to-end through the exporter; each closed output "
                 "is decompressed by python zlib/lzma (single complete stream required) and split into the chunks written; TLC "
-                "compares with the scenario; distinct = scenarios")
+                "compares with the scenario; chunk lengths around every multiple of 4 KiB (16 KiB quick) up to 96 KiB behind a "
+                "backlog of 384 KiB incompressible data under AddressSanitizer; distinct = scenarios")
     chk.assumptions = ["TLC + CommunityModules", "python3 zlib/lzma as the independent decompressors",
                        "driver memcmp of decompressed content against the chunks it generated"]
     for named in (True, False):
@@ -22,7 +23,9 @@ def run(tier):
     rng = random.Random(chk.seed * 17 + 14)
     scs = writer_scenarios(rng, tier, big=True) + exporter_scenarios(rng, tier)
     m = run_scenarios(chk, "c14", scs, {"C14"}, "c14")
-    chk.distinct = m["execs"]
+    # chunk lengths around the fractions of the compressors' scratch buffer, behind a compressor backlog, under ASan
+    m2 = run_scenarios(chk, "c14", boundary_scenarios(tier), {"C14"}, "c14b", flavor="asan")
+    chk.distinct = m["execs"] + m2["execs"]
     return chk.finish()
 
 
